@@ -4,6 +4,7 @@
 #include <unistd.h>
 #include "vf.hpp"
 #include <csetjmp>
+#include <cerrno>
 #include <csignal>
 #include <execinfo.h>
 #include <pthread.h>
@@ -83,6 +84,7 @@ __attribute__((noinline)) void dirty_stack() {
 void Ctx::op(const char *fmt, ...) {
     opno++;
     dirty_stack();
+    if (g_errno_repoison) errno = g_errno_poison;   // a routine must not judge by an errno value it did not cause itself
     if (!verbose && trace.size() > 6000) return;
     char buf[512];
     va_list ap; va_start(ap, fmt); vsnprintf(buf, sizeof buf, fmt, ap); va_end(ap);
@@ -127,6 +129,7 @@ int count_open_fds(std::string *what) {
 // the case that just ended: they must not be attributed to the next one
 std::atomic<unsigned> g_buf_seq{0};
 int g_via_members = 0;
+int g_errno_poison = 0, g_errno_repoison = 0;
 void san_sync() { g_san_seen = g_san_reports; g_buf_seq = 0; }
 
 void Ctx::check_san(const char *where) {
